@@ -39,7 +39,9 @@ func QRDataCodewords(v, lvl int) int {
 	return QRRawModules(v)/8 - qrEccPerBlock[lvl][v]*qrNumBlocks[lvl][v]
 }
 
-func QRBlocks(v, lvl int) (numBlocks, eccPerBlock int) { return qrNumBlocks[lvl][v], qrEccPerBlock[lvl][v] }
+func QRBlocks(v, lvl int) (numBlocks, eccPerBlock int) {
+	return qrNumBlocks[lvl][v], qrEccPerBlock[lvl][v]
+}
 
 func QRAlignmentCentres(v int) []int {
 	if v == 1 {
